@@ -1,1 +1,251 @@
-//! c04p harnesses (Engine K)
+//! C04 / C15 — the Pinocchio-dispatched instructions (all six rows of `PINOCCHIO_INSTRUCTIONS` in
+//! `/repo/programs/whirlpool/src/entrypoint.rs`) and the Pinocchio account helpers.
+//!
+//! Handler harnesses run the REAL handler over raw symbolic account memory (every account: key, owner,
+//! signer flag, writable flag and all data bytes `kani::any()`).
+//!  * `*_prefix`: `Clock::get` (the first sysvar call, placed by every handler after the whole validation
+//!    block) is stubbed to set `REACHED` and return `Err`: "validation passed => consequences".
+//!  * `*_tick_arrays`: `Clock::get` succeeds with an arbitrary timestamp, the handler goes on to
+//!    `TickArraysMut::load` (where tick-array ownership / back-reference is checked) and is cut at the next
+//!    callee, `pino_calculate_modify_liquidity`, whose stub records the `whirlpool()` back-reference of the
+//!    two arrays it was handed.
+use crate::common::*;
+use pinocchio::account_info::AccountInfo;
+use pinocchio::program_error::ProgramError;
+use pinocchio::sysvars::clock::Clock;
+use ::whirlpool::pinocchio::constants::address::{
+    MEMO_PROGRAM_ID, SYSTEM_PROGRAM_ID, TOKEN_2022_PROGRAM_ID, TOKEN_PROGRAM_ID, WHIRLPOOL_PROGRAM_ID,
+};
+use ::whirlpool::pinocchio::errors::UnifiedError;
+use ::whirlpool::pinocchio::ported::manager_liquidity_manager::PinoModifyLiquidityUpdate;
+use ::whirlpool::pinocchio::state::token::MemoryMappedTokenAccount;
+use ::whirlpool::pinocchio::state::whirlpool::tick_array::loader::{load_tick_array, load_tick_array_mut};
+use ::whirlpool::pinocchio::state::whirlpool::{
+    MemoryMappedPosition, MemoryMappedWhirlpool, TickArray,
+};
+use ::whirlpool::pinocchio::utils::account_info_iter::AccountIterator;
+use ::whirlpool::pinocchio::utils::account_load::{load_account, load_account_mut, load_token_program_account};
+use ::whirlpool::pinocchio::utils::verify::{verify_address, verify_constraint};
+
+type PResult<T> = core::result::Result<T, UnifiedError>;
+
+// ---------------------------------------------------------------------------------------------
+// raw account memory, laid out exactly as `pinocchio::account_info::Account` followed by the data
+#[repr(C)]
+pub struct Raw<const N: usize> {
+    borrow_state: u8,
+    is_signer: u8,
+    is_writable: u8,
+    executable: u8,
+    resize_delta: i32,
+    key: [u8; 32],
+    owner: [u8; 32],
+    lamports: u64,
+    data_len: u64,
+    data: [u8; N],
+}
+/// fully symbolic account with `N` data bytes (not borrowed, as at instruction start)
+fn raw<const N: usize>() -> Raw<N> {
+    Raw {
+        borrow_state: 0xff,
+        is_signer: kani::any::<bool>() as u8,
+        is_writable: kani::any::<bool>() as u8,
+        executable: kani::any::<bool>() as u8,
+        resize_delta: 0,
+        key: kani::any(),
+        owner: kani::any(),
+        lamports: kani::any(),
+        data_len: N as u64,
+        data: kani::any(),
+    }
+}
+/// as `raw`, with a symbolic data length `<= N`
+fn raw_len<const N: usize>() -> Raw<N> {
+    let mut r = raw::<N>();
+    let l: u64 = kani::any();
+    kani::assume(l <= N as u64);
+    r.data_len = l;
+    r
+}
+unsafe fn ai<const N: usize>(r: *mut Raw<N>) -> AccountInfo {
+    let mut slot = core::mem::MaybeUninit::<AccountInfo>::uninit();
+    (slot.as_mut_ptr() as *mut *mut Raw<N>).write(r);
+    slot.assume_init()
+}
+
+// byte offsets (pinocchio/state/whirlpool/whirlpool.rs, position.rs; spl token account)
+const WP_MINT_A: usize = 101;
+const WP_VAULT_A: usize = 133;
+const WP_MINT_B: usize = 181;
+const WP_VAULT_B: usize = 213;
+const POS_WHIRLPOOL: usize = 8;
+const POS_MINT: usize = 40;
+const POS_LIQUIDITY: usize = 72;
+const FIXED_TA_LEN: usize = 9988; // FixedTickArray::LEN
+const FIXED_TA_WHIRLPOOL: usize = 9956;
+const DYN_TA_WHIRLPOOL: usize = 12;
+const WP_DISC: [u8; 8] = [0x3f, 0x95, 0xd1, 0x0c, 0xe1, 0x80, 0x63, 0x09];
+const POS_DISC: [u8; 8] = [0xaa, 0xbc, 0x8f, 0xe4, 0x7a, 0x40, 0xf7, 0xd0];
+
+fn key_at(d: &[u8], off: usize) -> [u8; 32] {
+    let mut k = [0u8; 32];
+    k.copy_from_slice(&d[off..off + 32]);
+    k
+}
+fn u64_at(d: &[u8], off: usize) -> u64 {
+    let mut k = [0u8; 8];
+    k.copy_from_slice(&d[off..off + 8]);
+    u64::from_le_bytes(k)
+}
+
+/// C04: `authority` signed and is the token account's owner, or its delegate with delegated_amount == 1
+fn authority_controls(pos_token: &[u8], authority_key: &[u8; 32], authority_signer: u8) -> bool {
+    let is_owner = key_at(pos_token, 32) == *authority_key;
+    let is_delegate = pos_token[72] == 1 && key_at(pos_token, 76) == *authority_key;
+    let delegated_amount = u64_at(pos_token, 121);
+    authority_signer != 0 && (is_owner || (is_delegate && delegated_amount == 1))
+}
+
+/// consequences common to all six handlers (C04: authority; C15: pool / position / token account / vaults)
+fn assert_common<const T: usize>(
+    whirlpool: &Raw<653>,
+    authority: &Raw<0>,
+    position: &Raw<216>,
+    pos_token: &Raw<T>,
+    vault_a: &Raw<165>,
+    vault_b: &Raw<165>,
+) {
+    // C04
+    assert!(authority.is_signer != 0, "authority signed");
+    assert!(
+        authority_controls(&pos_token.data, &authority.key, authority.is_signer),
+        "authority is owner or one-token delegate"
+    );
+    assert!(u64_at(&pos_token.data, 64) == 1, "position token amount == 1");
+    assert!(key_at(&pos_token.data, 0) == key_at(&position.data, POS_MINT), "token account mint == position mint");
+    assert!(
+        pos_token.owner == TOKEN_PROGRAM_ID || pos_token.owner == TOKEN_2022_PROGRAM_ID,
+        "token account owned by a token program"
+    );
+    assert!(pos_token.data_len > 108 && pos_token.data[108] != 0, "token account initialized");
+    // C15
+    assert!(whirlpool.owner == WHIRLPOOL_PROGRAM_ID && whirlpool.owner == ::whirlpool::ID.to_bytes());
+    assert!(whirlpool.data[0..8] == WP_DISC);
+    assert!(whirlpool.is_writable != 0);
+    assert!(position.owner == WHIRLPOOL_PROGRAM_ID);
+    assert!(position.data[0..8] == POS_DISC);
+    assert!(position.is_writable != 0);
+    assert!(key_at(&position.data, POS_WHIRLPOOL) == whirlpool.key, "position belongs to the pool");
+    assert!(vault_a.key == key_at(&whirlpool.data, WP_VAULT_A), "vault A is the pool's");
+    assert!(vault_b.key == key_at(&whirlpool.data, WP_VAULT_B), "vault B is the pool's");
+    assert!(vault_a.is_writable != 0 && vault_b.is_writable != 0);
+}
+
+/// v2 extras (C15): mints are the pool's, each token program is SPL Token / Token-2022 and owns its mint, memo id
+fn assert_v2(
+    whirlpool: &Raw<653>,
+    tp_a: &Raw<0>,
+    tp_b: &Raw<0>,
+    memo: &Raw<0>,
+    mint_a: &Raw<82>,
+    mint_b: &Raw<82>,
+) {
+    assert!(mint_a.key == key_at(&whirlpool.data, WP_MINT_A), "mint A is the pool's");
+    assert!(mint_b.key == key_at(&whirlpool.data, WP_MINT_B), "mint B is the pool's");
+    assert!(tp_a.key == TOKEN_PROGRAM_ID || tp_a.key == TOKEN_2022_PROGRAM_ID);
+    assert!(tp_b.key == TOKEN_PROGRAM_ID || tp_b.key == TOKEN_2022_PROGRAM_ID);
+    assert!(tp_a.key == mint_a.owner, "token program A owns mint A");
+    assert!(tp_b.key == mint_b.owner, "token program B owns mint B");
+    assert!(memo.key == MEMO_PROGRAM_ID);
+}
+
+// ---------------------------------------------------------------------------------------------
+// stubs
+static mut REACHED: bool = false;
+/// prefix cut: the first sysvar call
+fn stub_clock_get_cut() -> Result<Clock, ProgramError> {
+    unsafe {
+        REACHED = true;
+    }
+    Err(ProgramError::UnsupportedSysvar)
+}
+/// stage 2: the sysvar call succeeds with an arbitrary clock
+fn stub_clock_get_any() -> Result<Clock, ProgramError> {
+    Ok(Clock {
+        slot: kani::any(),
+        epoch_start_timestamp: kani::any(),
+        epoch: kani::any(),
+        leader_schedule_epoch: kani::any(),
+        unix_timestamp: kani::any(),
+    })
+}
+
+static mut CALLS: usize = 0;
+static mut SEEN_LOWER: [[u8; 32]; 2] = [[0; 32]; 2];
+static mut SEEN_UPPER: [[u8; 32]; 2] = [[0; 32]; 2];
+/// stage-2 cut: records the back-reference of the tick arrays the handler is about to act on, then fails
+fn stub_calc_modify_cut(
+    _whirlpool: &MemoryMappedWhirlpool,
+    _position: &MemoryMappedPosition,
+    tick_array_lower: &dyn TickArray,
+    tick_array_upper: &dyn TickArray,
+    _liquidity_delta: i128,
+    _timestamp: u64,
+) -> PResult<PinoModifyLiquidityUpdate> {
+    unsafe {
+        assert!(CALLS < 2);
+        SEEN_LOWER[CALLS] = *tick_array_lower.whirlpool();
+        SEEN_UPPER[CALLS] = *tick_array_upper.whirlpool();
+        CALLS += 1;
+    }
+    Err(UnifiedError::Pinocchio(ProgramError::Custom(0xdead)))
+}
+
+/// `tick array account is the pool's` as read off raw memory: program-owned, writable, known discriminator,
+/// back-reference == pool key
+fn tick_array_belongs(ta: &Raw<FIXED_TA_LEN>, pool_key: &[u8; 32]) -> bool {
+    use anchor_lang::Discriminator;
+    let fixed = ta.data[0..8] == *::whirlpool::state::FixedTickArray::DISCRIMINATOR;
+    let dynamic = ta.data[0..8] == *::whirlpool::state::DynamicTickArray::DISCRIMINATOR;
+    let back = if fixed { key_at(&ta.data, FIXED_TA_WHIRLPOOL) } else { key_at(&ta.data, DYN_TA_WHIRLPOOL) };
+    ta.owner == WHIRLPOOL_PROGRAM_ID && ta.is_writable != 0 && (fixed || dynamic) && back == *pool_key
+}
+
+// ---------------------------------------------------------------------------------------------
+// handler prefixes
+
+/// increase_liquidity (v1) handler prefix: reaching the Clock sysvar call implies signer/authority (C04) and pool-membership (C15) facts; 11 fully symbolic accounts, 40 symbolic data bytes
+// @verif prop=C04,C15 tier=quick timeout=300
+#[kani::proof]
+#[kani::unwind(40)]
+#[kani::stub(alloc::fmt::format, stub_format)]
+#[kani::stub(<Clock as pinocchio::sysvars::Sysvar>::get, stub_clock_get_cut)]
+#[kani::stub(<::whirlpool::pinocchio::errors::UnifiedError as core::convert::From<::whirlpool::errors::ErrorCode>>::from, stub_unified_from_code)]
+#[kani::stub(<::whirlpool::pinocchio::errors::UnifiedError as core::convert::From<anchor_lang::error::ErrorCode>>::from, stub_unified_from_anchor_code)]
+fn c04p_increase_liquidity_prefix() {
+    let mut whirlpool = raw::<653>();
+    let mut token_program = raw::<0>();
+    let mut authority = raw::<0>();
+    let mut position = raw::<216>();
+    let mut pos_token = raw::<165>();
+    let mut owner_a = raw::<165>();
+    let mut owner_b = raw::<165>();
+    let mut vault_a = raw::<165>();
+    let mut vault_b = raw::<165>();
+    let mut ta_lower = raw::<16>();
+    let mut ta_upper = raw::<16>();
+    let data: [u8; 40] = kani::any();
+    let accounts = unsafe {
+        [ai(&mut whirlpool), ai(&mut token_program), ai(&mut authority), ai(&mut position), ai(&mut pos_token),
+         ai(&mut owner_a), ai(&mut owner_b), ai(&mut vault_a), ai(&mut vault_b), ai(&mut ta_lower), ai(&mut ta_upper)]
+    };
+    let r = ::whirlpool::pinocchio::instructions::increase_liquidity::handler(&accounts, &data);
+    let reached = unsafe { REACHED };
+    kani::cover!(reached, "validation can pass");
+    kani::cover!(reached && key_at(&pos_token.data, 32) != authority.key, "validation can pass for a delegate");
+    if reached {
+        assert_common(&whirlpool, &authority, &position, &pos_token, &vault_a, &vault_b);
+        assert!(token_program.key == TOKEN_PROGRAM_ID);
+    }
+    core::mem::forget(r);
+}
